@@ -234,6 +234,8 @@ class Ctx:
         self.exhaustive = False
         self.driver = None
         self.deep = False
+        self.fail_counts = {}
+        self.fail_min = {}
 
     # --- coverage bookkeeping
     def count(self, line, answer, trivial=False):
@@ -251,10 +253,11 @@ class Ctx:
 
     def fail(self, sig, input, detail):
         """a concrete input on which the IMPLEMENTATION violates the property"""
-        if len(self.failures) < 500:
+        n = self.fail_counts.get(sig, 0)
+        self.fail_counts[sig] = n + 1
+        if n < 3 or (n < 50 and len(canon(input)) < self.fail_min.get(sig, 10 ** 9)):
             self.failures.append({"sig": sig, "input": input, "detail": detail})
-        else:
-            self.notes["failures_truncated"] = self.notes.get("failures_truncated", 0) + 1
+            self.fail_min[sig] = min(self.fail_min.get(sig, 10 ** 9), len(canon(input)))
 
     def correspond(self, lines, impl_fn, trivial_fn=None, model_post=None):
         """runs `lines` through the model driver and through impl_fn (real code); diffs canonical answers.
@@ -402,7 +405,9 @@ def main_check(prop, tier, seed, module, replay=None):
         "rule": meta.get("rule", ""),
         "exhaustive": bool(ctx.exhaustive),
         "correspondence_diffs": len(ctx.corr_diffs),
+        "correspondence_diff_samples": ctx.corr_diffs[:5],
         "known_findings_hit": sorted(printed_known),
+        "failure_counts_by_signature": dict(sorted(ctx.fail_counts.items())),
         "notes": ctx.notes,
     })
     if not cov["samples"]:
